@@ -356,10 +356,18 @@ def save_replay(ctx, name, obj):
     return p
 
 
+def _nonull(v):
+    if isinstance(v, dict):
+        return {k: _nonull(x) for k, x in v.items() if x is not None}
+    if isinstance(v, list):
+        return [_nonull(x) for x in v]
+    return v
+
+
 def write_ndjson(path, events):
     with open(path, "w") as f:
         for e in events:
-            f.write(json.dumps(e, separators=(",", ":")))
+            f.write(json.dumps(_nonull(e), separators=(",", ":")))
             f.write("\n")
 
 
